@@ -252,6 +252,9 @@ def run(ctx):
 def replay(path):
     import json
     r = json.load(open(path))["replay"]
+    if isinstance(r, dict) and str(r.get("kind", "")).startswith("harvest-"):
+        from harness import harvest_run
+        return harvest_run.replay(r)
     if "cfg" not in r:
         print("re-run the check for this kind")
         return 0
